@@ -172,6 +172,14 @@ var kinds = []func(i int) []byte{
 	func(i int) []byte { return midi.SysEx([]byte{byte(i)}) },
 }
 
+func init() {
+	// kinds 5..20: one controller message per channel 0..15
+	for c := 0; c < 16; c++ {
+		c := c
+		kinds = append(kinds, func(i int) []byte { return midi.ControlChange(uint8(c), uint8(i%128), 9) })
+	}
+}
+
 var kindPatterns = map[string]func(i int) int{
 	"all-meta":    func(i int) int { return 0 },
 	"all-ch0":     func(i int) int { return 1 },
@@ -179,6 +187,7 @@ var kindPatterns = map[string]func(i int) int{
 	"cycle5":      func(i int) int { return i % 5 },
 	"ch15-ch3-ch0": func(i int) int { return 3 - i%3 },
 	"meta-sysex":  func(i int) int { return (i % 2) * 4 },
+	"16-channels": func(i int) int { return 5 + (i*7)%16 },
 }
 
 var deltaPatterns = map[string]func(i int) uint32{
